@@ -64,3 +64,57 @@ proof fn lemma_range_composition(start: Height, end: Height, sh: Height, stored:
             forall|h: Height| start <= h <= end ==>
                 ((stored.contains(h) && start <= h <= end) != (end >= sh && h >= sh && h >= start)),
 {}
+
+// ---- get_block_headers_internal as a whole (get_block_headers.rs:74): which range is served and how the two parts are joined ---
+//@extract file=canister/src/api/get_block_headers.rs item="struct Stats"
+//@ rewrite R2? "#\[derive\(([^\]]*)\)\]" => ""
+//@ rewrite R3 "struct Stats" => "struct HeaderStats"
+//@end
+impl HeaderStats {
+    // [trusted:stand-in] #[derive(Default)]: all counters zero
+    fn default() -> (r: HeaderStats) { HeaderStats { ins_total: 0, ins_build_block_headers_stable_blocks: 0, ins_build_block_headers_unstable_blocks: 0 } }
+}
+// the serialised headers each source contributes to [lo, hi]: uninterpreted contents, lengths from the store's domain
+// (stable part) and from the verified index computation above (unstable part)
+uninterp spec fn stable_headers_spec(s: &State, lo: Height, hi: Height) -> Seq<Vec<u8>>;
+uninterp spec fn unstable_headers_spec(s: &State, lo: Height, hi: Height) -> Seq<Vec<u8>>;
+// [trusted:stand-in] the two materialisation pipelines (get_block_headers.rs:85-90 and 98-113: boxed iterators, `.map(..).collect()`,
+// consensus_encode); R9 turns each `with_state(|s| ..)` pipeline into one call keeping the range arguments
+#[verifier::external_body]
+fn vp_stable_headers(s: &State, lo: Height, hi: Height) -> (r: Vec<Vec<u8>>)
+    ensures
+        r@ == stable_headers_spec(s, lo, hi),
+        // one header per stored height of the range
+        wf_headers(s) && lo <= hi ==> r@.len() == (if lo >= s.utxos.next_height { 0int } else if hi < s.utxos.next_height { hi - lo + 1 } else { s.utxos.next_height - lo }),
+{ unimplemented!() }
+#[verifier::external_body]
+fn vp_unstable_headers(s: &State, lo: Height, hi: Height) -> (r: Vec<Vec<u8>>)
+    ensures
+        r@ == unstable_headers_spec(s, lo, hi),
+        // one header per index of the served branch selected by get_block_headers_in_range_indices
+        lo <= hi ==> r@.len() == (if hi < s.utxos.next_height { 0int } else if lo >= s.utxos.next_height { hi - lo + 1 } else { hi - s.utxos.next_height + 1 }),
+{ unimplemented!() }
+//@extract file=canister/src/api/get_block_headers.rs item="fn get_block_headers_internal" props=C07
+//@ ret r
+//@ sigrewrite R3 "Stats" => "HeaderStats"
+//@ rewrite R3 "let mut stats: Stats = Stats::default\(\);" => "let mut stats: HeaderStats = HeaderStats::default();"
+//@ rewrite R9 "with_state\(\|s\| \{\s*s\.stable_block_headers\s*\.get_block_headers_in_range\(std::ops::RangeInclusive::new\((\w+), (\w+)\)\)\s*\.map\(\|header_blob\| header_blob\.into\(\)\)\s*\.collect\(\)\s*\}\);" => "vp_stable_headers(vp_state(), \1, \2);"
+//@ rewrite R9 "with_state\(\|s\| \{\s*let unstable_block_headers = &mut s\s*\.unstable_blocks\s*\.get_block_headers_in_range\(\s*s\.stable_height\(\),\s*std::ops::RangeInclusive::new\((\w+), (\w+)\),\s*\).*?\.collect\(\);\s*vec_headers\.append\(unstable_block_headers\)\s*\}\);" => "{ let mut vp_unstable = vp_unstable_headers(vp_state(), \1, \2); let unstable_block_headers = &mut vp_unstable; vec_headers.append(unstable_block_headers) };"
+//@ spec
+//@| requires state_ranges(&global_state()),
+//@| ensures
+//@|     ({
+//@|         let s = global_state();
+//@|         match effective_range_spec(request.start_height, request.end_height, tip_height_spec(&s) as Height) {
+//@|             // the documented errors, with the real tip height
+//@|             Err(e) => r matches Err(e2) && e2 == e,
+//@|             Ok(range) => r matches Ok(p)
+//@|                 // the response names the last height it serves
+//@|                 && p.0.tip_height == range.1
+//@|                 // stable part first, unstable part after it, nothing else
+//@|                 && p.0.block_headers@ == stable_headers_spec(&s, range.0, range.1) + unstable_headers_spec(&s, range.0, range.1)
+//@|                 // exactly one header per height of the effective range (needs the store to hold exactly the heights below the stable height)
+//@|                 && (wf_headers(&s) ==> p.0.block_headers@.len() == range.1 - range.0 + 1),
+//@|         }
+//@|     }),
+//@end
